@@ -18,6 +18,8 @@ pub enum H {
     Hash(usize),
     /// get_file and get_hash of a name the archive does not hold: Ok(None), nothing disturbed
     Missing,
+    /// helpers::linear_extract of every file on the same reader: exact bytes whatever was done before
+    Linear,
 }
 
 const READS: [usize; 6] = [0, 1, 3, 7, 64, 1000];
@@ -36,6 +38,7 @@ fn alphabet(nfiles: usize, file_open: bool) -> Vec<H> {
         v.push(H::Hash(f));
     }
     v.push(H::Missing);
+    v.push(H::Linear);
     v
 }
 
@@ -106,6 +109,18 @@ pub fn run_history(s: &Subject, hist: &[H], rep: &mut Report) -> Option<(Value, 
                 }
                 H::Read(_) => {
                     // a read without an open file cannot occur (generator), skip defensively
+                    i += 1;
+                }
+                H::Linear => {
+                    let mut sinks: std::collections::HashMap<&String, Vec<u8>> = s.names.iter().map(|n| (n, Vec::new())).collect();
+                    if let Err(e) = mla::helpers::linear_extract(&mut rd, &mut sinks) {
+                        return Some((json!({"kind": "linear_extract_fails_after_history", "layers": lt}), format!("step {i}: {e:?}")));
+                    }
+                    for (f, n) in s.names.iter().enumerate() {
+                        if sinks[n] != s.data[f] {
+                            return Some((json!({"kind": "linear_extract_differs_after_history", "layers": lt}), format!("step {i}: linear_extract delivers {} bytes to {n} instead of its {} bytes", sinks[n].len(), s.data[f].len())));
+                        }
+                    }
                     i += 1;
                 }
                 H::Missing => {
@@ -268,7 +283,7 @@ pub fn run(started: Instant) -> i32 {
         rep,
         Meta {
             level: "model_checking",
-            rule: "for each subject archive (3 programs x 4 layer combinations, real writer) ALL histories of exactly `depth` operations over {list, open(f) for 3 files (dropping the previously open file object, possibly midway), read(k) k in {0,1,3,7,64,1000} on the open file, hash(f), get_file+get_hash of an absent name} are executed on one real ArchiveReader, checking at every step: listing, size, hash and the bytes returned since the last open equal the file read alone on a fresh reader; zero-length result only at end of file. No pruning. states = distinct (subject, history); non-trivial = histories that open at least two files or mix open with hash".to_string(),
+            rule: "for each subject archive (3 programs x 4 layer combinations, real writer) ALL histories of exactly `depth` operations over {list, open(f) for 3 files (dropping the previously open file object, possibly midway), read(k) k in {0,1,3,7,64,1000} on the open file, hash(f), get_file+get_hash of an absent name, linear_extract of every file (exact bytes)} are executed on one real ArchiveReader, checking at every step: listing, size, hash and the bytes returned since the last open equal the file read alone on a fresh reader; zero-length result only at end of file. No pruning. states = distinct (subject, history); non-trivial = histories that open at least two files or mix open with hash".to_string(),
             exhaustive: true,
             bounds: json!({"depth": depth, "alphabet": 14, "subjects": subs.len(), "histories_per_subject": hists.len()}),
             assumptions: vec!["scaled constants".to_string()],
@@ -284,6 +299,7 @@ fn hjson(h: &H) -> Value {
         H::Read(k) => json!(["read", k]),
         H::Hash(f) => json!(["hash", f]),
         H::Missing => json!(["missing"]),
+        H::Linear => json!(["linear_extract"]),
     }
 }
 
@@ -303,6 +319,7 @@ pub fn replay(path: &str) -> i32 {
                         "read" => H::Read(n),
                         "hash" => H::Hash(n),
                         "missing" => H::Missing,
+                        "linear_extract" => H::Linear,
                         _ => H::List,
                     }
                 })
